@@ -277,11 +277,14 @@ def make_fpath(pts, lit):
 _vel_spelling = [0, True]
 
 
-def impl_solve(cloud, group, dtype=None, as_set=False):
+def impl_solve(cloud, group, dtype=None, as_set=False, np_scalar_velocities=False):
     pts = make_points(cloud)
     _vel_spelling[1] = dtype is None
     fps = [make_fpath(pts, lit) for lit in group]
     _vel_spelling[1] = True
+    if np_scalar_velocities:
+        # velocities taken out of a NumPy array (np.float64 scalars): the same numbers
+        fps = [ray.FermatPath(tuple(np.float64(x) if k % 2 == 1 else x for k, x in enumerate(fp))) for fp in fps]
     arg = set(fps) if as_set else tuple(fps)
     kw = {} if dtype is None else {"dtype": dtype}
     res = ray.FermatSolver(arg, **kw).solve()
@@ -511,6 +514,16 @@ def run_group_(cloud, group, dyadic, info, big=False):
         if bad:
             chk.violation(key + ":float32", f"float32 solver answer violates {bad}",
                           replay_of(cloud, [lit], {"impl_times32": np.asarray(r.times, float)}), failing_input_found=True)
+    # ---- float32 working precision with the velocities given as NumPy scalars (elements of a velocity array): the
+    #      answer is still optimal and realised (its dtype is not constrained: NumPy promotes) -------------
+    if rng.random() < 0.5:
+        chk.count(float32_numpy_scalar_velocities=1)
+        for lit, r in zip(group, impl_solve(cloud, group, dtype=np.float32, np_scalar_velocities=True)):
+            evaluations += 1
+            bad = spec_check(cloud, lit, np.asarray(r.times), np.asarray(r.indices), 0.0 if dyadic else 2e-6, dtype=np.float32)
+            if bad:
+                chk.violation(key + ":float32-npvel", f"float32 solver answer with np.float64-typed velocities violates {bad}",
+                              replay_of(cloud, [lit], {"impl_times32": np.asarray(r.times, float)}), failing_input_found=True)
     # ---- float32 solver, the whole geometry far from the origin -----------------
     # (coordinates large compared with the leg lengths: the distances must still be those of the points,
     #  to float32 rounding of the DISTANCE, not of the absolute coordinates)
@@ -586,6 +599,20 @@ for gi in range(n_big):
     cloud, group, dy, info = gen_group(gi % 2 == 0, 40, maxlegs=3, sizes=sizes)
     run_group(cloud, group[:3], dy, dict(info, variants=info["variants"][:3]), big=True)
 
+# the same with the library's tuning knob for the block size of the minimisation lowered (arim.settings.
+# BLOCK_SIZE_FIND_MIN_TIMES, default 50000): interior sets then span several blocks of the k loop
+import arim.settings as _settings  # noqa: E402
+_blk0 = _settings.BLOCK_SIZE_FIND_MIN_TIMES
+try:
+    for gi in range(6 if Q else 40):
+        _settings.BLOCK_SIZE_FIND_MIN_TIMES = int(rng.choice([1, 2, 3, 5, 8, 16]))
+        sizes = [int(rng.integers(1, 6)), int(rng.integers(9, 41)), int(rng.integers(1, 6))]
+        cloud, group, dy, info = gen_group(gi % 2 == 0, 40, maxlegs=2, sizes=sizes)
+        chk.count(block_size_setting=f"lowered to {_settings.BLOCK_SIZE_FIND_MIN_TIMES}")
+        run_group(cloud, group[:3], dy, dict(info, variants=info["variants"][:3], block_size_find_min_times=_settings.BLOCK_SIZE_FIND_MIN_TIMES), big=True)
+finally:
+    _settings.BLOCK_SIZE_FIND_MIN_TIMES = _blk0
+
 # ---- boundary families -------------------------------------------------------
 # empty first / last set: empty result; empty interior set: ZeroDivisionError (model: None)
 e_cloud = {0: np.array([[0.0, 0, 0], [3, 0, 0]]), 1: np.zeros((0, 3)), 2: np.array([[0.0, 0, 4], [3, 0, 4], [3, 0, 8]])}
@@ -621,7 +648,7 @@ for k, (lit, got) in enumerate(err_cases):
 
 # ---- very large interior set: the optimal crossing point has an index above 2^15 ----------
 # (spec predicates only: the reported indices must realise the reported, brute-force-minimal times)
-for nbig in ((40000,) if Q else (40000, 66000)):
+for nbig in ((40000, 60001) if Q else (40000, 60001, 66000, 131075)):     # (above 50000: more than one block of the k loop)
     xs = np.linspace(-1.0, 1.0, nbig)
     big_cloud = {0: np.array([[0.9, 0.0, -1.0], [0.95, 0.0, -1.5]]),
                  1: np.stack([xs, np.zeros(nbig), np.zeros(nbig)], axis=1),
